@@ -1515,7 +1515,71 @@ def kinds_family(tier, seed):
                     emit(rec)
 
 
-FAMILIES = {"loader": loader_family, "dumper": dumper_family, "literal": literal_family, "hostile": hostile_family,
+def soundness_family(tier, seed):
+    """C14: converters between two one-field models for enumerated (source type, destination type) pairs, including generic
+    models parametrised explicitly and through inheritance; only the compilation runs (get_converter), nothing is converted"""
+    from adaptix._internal.conversion.facade.retort import ConversionRetort
+    from adaptix._internal.morphing.model.basic_gen import CodeGenAccumulator
+
+    prelude = (
+        "from dataclasses import dataclass\n"
+        "from typing import Any, Dict, Generic, List, Mapping, Optional, Sequence, Set, Tuple, TypeVar, Union\n"
+        "T = TypeVar('T')\n"
+        "@dataclass\nclass Page(Generic[T]):\n    first: T\n    items: List[T]\n"
+        "@dataclass\nclass PageDTO(Generic[T]):\n    first: T\n    items: List[T]\n"
+        "@dataclass\nclass IntPage(Page[int]):\n    pass\n"
+        "@dataclass\nclass StrPageDTO(PageDTO[str]):\n    pass\n"
+        "@dataclass\nclass IntPageDTO(PageDTO[int]):\n    pass\n"
+        "@dataclass\nclass Inner:\n    v: int\n"
+        "@dataclass\nclass InnerDTO:\n    v: int\n"
+        "@dataclass\nclass InnerBad:\n    v: str\n"
+        "class MyInt(int):\n    pass\n"
+    )
+    pairs = [
+        ("int", "int", "as-is"), ("int", "str", "refuse"), ("bool", "int", "as-is"), ("int", "bool", "refuse"), ("MyInt", "int", "as-is"),
+        ("int", "MyInt", "refuse"), ("int", "Any", "as-is"), ("Any", "int", "refuse"), ("str", "int", "refuse"), ("int", "float", "refuse"),
+        ("List[int]", "List[int]", "accept"), ("List[int]", "List[str]", "refuse"), ("List[bool]", "List[int]", "accept"),
+        ("List[int]", "Sequence[int]", "accept"), ("List[int]", "Set[str]", "refuse"), ("Dict[str, int]", "Dict[str, int]", "accept"),
+        ("Dict[str, int]", "Dict[str, str]", "refuse"), ("Dict[str, int]", "Dict[int, int]", "refuse"),
+        ("Mapping[str, int]", "Dict[str, int]", "rebuilt"), ("Sequence[int]", "List[int]", "rebuilt"),
+        ("List[List[int]]", "List[List[str]]", "refuse"),
+        ("Optional[int]", "Optional[int]", "accept"), ("Optional[int]", "int", "refuse"), ("int", "Optional[int]", "accept"),
+        ("Optional[int]", "Optional[str]", "refuse"), ("Optional[List[int]]", "Optional[List[str]]", "refuse"),
+        ("int", "Union[int, str]", "accept"), ("Union[int, str]", "int", "refuse"), ("Union[int, str]", "Union[str, int]", "accept"),
+        ("Union[int, str, None]", "Optional[int]", "refuse"), ("Union[int, str]", "Union[int, str, None]", "accept"),
+        ("List[int]", "Optional[List[str]]", "refuse"), ("List[int]", "Optional[List[int]]", "accept"),
+        ("IntPage", "StrPageDTO", "refuse"), ("IntPage", "IntPageDTO", "accept"), ("Page[int]", "PageDTO[str]", "refuse"),
+        ("Page[int]", "PageDTO[int]", "accept"), ("List[IntPage]", "List[StrPageDTO]", "refuse"), ("Page[int]", "StrPageDTO", "refuse"),
+        ("IntPage", "PageDTO[int]", "accept"), ("Inner", "InnerDTO", "accept"), ("Inner", "InnerBad", "refuse"),
+        ("List[Inner]", "List[InnerBad]", "refuse"), ("Optional[Inner]", "Optional[InnerBad]", "refuse"),
+        ("Dict[str, Inner]", "Dict[str, InnerBad]", "refuse"), ("Tuple[int, ...]", "Tuple[str, ...]", "refuse"),
+        ("Tuple[int, ...]", "Tuple[int, ...]", "accept"),
+    ]
+    import types
+    for idx, (st, dt, want) in enumerate(pairs):
+        rec = {"kind": "soundness", "idx": idx, "src": st, "dst": dt, "want": want}
+        try:
+            _KIND_COUNTER[0] += 1
+            mod = types.ModuleType(f"soundness_family_{_KIND_COUNTER[0]}")
+            sys.modules[mod.__name__] = mod
+            exec(prelude + f"@dataclass\nclass SrcM:\n    x: {st}\n@dataclass\nclass DstM:\n    x: {dt}\n", mod.__dict__)
+            acc = CodeGenAccumulator()
+            retort = ConversionRetort(recipe=[acc])
+            try:
+                retort.get_converter(mod.SrcM, mod.DstM)
+                err = None
+            except Exception as e:
+                err = type(e).__name__
+            progs = [d.source for r, d in acc.list if "def coerce_SrcM_to_DstM(" in d.source]
+            rec.update({"error": err, "source": progs[0] if progs else None})
+        except Exception as e:
+            rec["harness_error"] = f"{type(e).__name__}: {e}"
+            rec["trace"] = traceback.format_exc()[-500:]
+        emit(rec)
+
+
+FAMILIES = {"soundness": soundness_family,
+            "loader": loader_family, "dumper": dumper_family, "literal": literal_family, "hostile": hostile_family,
             "broach": broach_family, "converter": converter_family, "convpipe": convpipe_family,
             "layoutpipe": layoutpipe_family, "kinds": kinds_family}
 
